@@ -470,9 +470,8 @@ func (obj *LogisticRegression) f_sparse(i int, theta DenseFloat64Vector) (float6
   if i >= len(x) {
     return y, w, x[i], fmt.Errorf("index out of bounds")
   }
-  obj.logisticRegression.Theta = theta
-
-  r := obj.logisticRegression.LogPdfSparse(x[i])
+  // called concurrently by the saga workers, each with its own theta
+  r := logisticRegression{theta}.LogPdfSparse(x[i])
 
   if math.IsNaN(r) {
     return y, w, x[i], fmt.Errorf("NaN value detected")
